@@ -1,4 +1,5 @@
 import Qvnt.Props.C05
+import Qvnt.Props.Code.C05
 open Qvnt
 #print axioms C05_norm_eq
 #print axioms C05_normalize
@@ -23,3 +24,5 @@ open Qvnt
 #print axioms C05_reachable_tensor_unit
 #print axioms C05_probs
 #print axioms C05_probs_of_pos
+#print axioms C05_code_refines
+#print axioms C05_code_reachable
